@@ -111,7 +111,17 @@ FIELDS = {"name": "s", "levelno": "i", "levelname": "s", "pathname": "s",
           "thread": "i", "message": "s", "process": "i", "funcName": "s"}
 # conversion -> types it works for, classic (%) style
 CLASSIC_CONV = {"s": "sif", "r": "sif", "d": "if", "f": "if", "x": "i",
-                "e": "if"}
+                "e": "if", "c": "i", "o": "i", "X": "i", "i": "if", "g": "if"}
+# integer-only presentation types of the format style, by fvariant
+FORMAT_INT_ONLY = {3: "{%s:d}", 5: "{%s:x}", 6: "{%s:c}", 7: "{%s:03d}",
+                   9: "{%s:b}"}
+# a character conversion of the thread identifier: whether the load-time
+# check lets it through depends on how large a thread identifier the
+# platform hands out, so the load verdict is not judged ('unspec'); what IS
+# judged is the implication the property states -- accepted at load time =>
+# an ordinary record can be formatted
+def _char_of_big_int(name, conv_is_char):
+    return conv_is_char and name == "thread"
 DEFAULT_FORMAT = "------\\n%(asctime)s %(levelname)s %(name)s %(message)s"
 DATEFMT = "%Y-%m-%dT%H:%M:%S"
 
@@ -143,8 +153,10 @@ def tok_text(tok, style):
                 return "{%s!r}" % n
             if v == 2:
                 return "{%s:>12}" % n
-            if v == 3:
-                return "{%s:d}" % n
+            if v in FORMAT_INT_ONLY:
+                return FORMAT_INT_ONLY[v] % n
+            if v == 8:
+                return "{%s:e}" % n
             return "{%s:.2f}" % n
         return ("${%s}" if tok.get("braced") else "$%s") % n
     if t == "positional":
@@ -176,14 +188,18 @@ def tok_valid(tok, style, arbitrary):
         typ = FIELDS[n]
     if sty == "classic":
         ok = typ in CLASSIC_CONV[tok.get("conv", "s")]
+        if ok and _char_of_big_int(n, tok.get("conv") == "c"):
+            ok = None
     elif sty == "format":
         v = tok.get("fvariant", 0)
         if v in (0, 1):
             ok = True
         elif v == 2:
             ok = True
-        elif v == 3:
+        elif v in FORMAT_INT_ONLY:
             ok = typ == "i"
+            if ok and _char_of_big_int(n, v == 6):
+                ok = None
         else:
             ok = typ in "if"
     else:
@@ -243,14 +259,18 @@ def format_verdict(h):
         # without any field reference
         return ("accept" if style == "safe-template" else "unspec"), False, \
             False
-    valid, hasref, unknown = True, False, False
+    valid, hasref, unknown, open_ = True, False, False, False
     for tok in h["format"]:
         v, r, u = tok_valid(tok, style, arb)
+        if v is None:
+            open_, v = True, True
         valid = valid and v
         hasref = hasref or (r and v)
         unknown = unknown or u
     if not valid:
         return "reject", hasref, unknown
+    if open_:
+        return "unspec", hasref, unknown
     if not hasref and style != "safe-template":
         return "unspec", hasref, unknown
     return "accept", hasref, unknown
@@ -443,13 +463,18 @@ def gen_format(rng, style, p_bad=0.3):
             if bad and rng.random() < 0.3:
                 name = "zzfield"
             if bad:
-                conv = rng.choice("sdrfxe")
-                fv = rng.choice([0, 1, 2, 3, 4])
+                conv = rng.choice("sdrfxecoXig")
+                fv = rng.choice([0, 1, 2, 3, 4, 5, 6, 7, 8, 9])
             else:
-                conv = rng.choice([c for c in "ssdrfxe"
+                conv = rng.choice([c for c in "sssddrfxecoXig"
                                    if typ in CLASSIC_CONV[c]])
-                fv = rng.choice([0, 0, 1, 2] + ([3] if typ == "i" else [])
-                                + ([4] if typ in "if" else []))
+                fv = rng.choice([0, 0, 1, 2]
+                                + ([3, 5, 6, 7, 9] if typ == "i" else [])
+                                + ([4, 8] if typ in "if" else []))
+            if name == "process" and (conv == "c" or fv == 6):
+                # whether a process id is a valid code point depends on the
+                # machine: not generated
+                conv, fv = "d", 3
             toks.append({"t": "field", "name": name, "conv": conv,
                          "width": rng.choice(["", "", "5", "-8", "08", ".3"]),
                          "fvariant": fv, "braced": rng.random() < 0.5})
@@ -469,7 +494,8 @@ def gen_format(rng, style, p_bad=0.3):
     if toks[-1]["t"] == "lit" and not toks[-1]["s"].strip():
         toks[-1] = {"t": "lit", "s": "y"}
     for t in toks:
-        if t["t"] == "field" and t["conv"] in "x" and t["width"] == ".3":
+        if t["t"] == "field" and t["conv"] in "xcoX" \
+                and t["width"] == ".3":
             t["width"] = ""
     return toks
 
